@@ -292,17 +292,33 @@ bool Instance::eval(const size_t argc, char* const* argv) {
     // signature-hash start (or the recorded tapscript position) of the script being debugged pointing into it
     const CScript::const_iterator saved_begincodehash = env->pbegincodehash;
     const uint32_t saved_codeseparator_pos = env->execdata.m_codeseparator_pos;
+    struct {
+        std::vector<valtype> stack, altstack;
+        ConditionStack vfExec;
+        int nOpCount = 0;
+        ScriptExecutionData execdata;
+        void apply(InterpreterEnv& e) const { e.stack = stack; e.altstack = altstack; e.vfExec = vfExec; e.nOpCount = nOpCount; e.execdata = execdata; }
+    } restore;
     try {
         while (it != script.end()) {
+            // an operation that fails executes nothing: like a failing step of the script itself, it leaves the session
+            // as it was before it (the operations before it have been executed) and is not counted
+            restore.stack = env->stack;
+            restore.altstack = env->altstack;
+            restore.vfExec = env->vfExec;
+            restore.nOpCount = env->nOpCount;
+            restore.execdata = env->execdata;
             bool ok = StepScript(*env, it, &script);
             env->pbegincodehash = saved_begincodehash;
             env->execdata.m_codeseparator_pos = saved_codeseparator_pos;
             if (!ok) {
+                restore.apply(*env);
                 fprintf(stderr, "Error: %s\n", ScriptErrorString(*env->serror).c_str());
                 return false;
             }
         }
     } catch (const std::exception& ex) {
+        restore.apply(*env);
         env->pbegincodehash = saved_begincodehash;
         env->execdata.m_codeseparator_pos = saved_codeseparator_pos;
         // e.g. scriptnum_error (overflow / non-minimal number), like Instance::step()
